@@ -434,8 +434,9 @@ impl Payload {
                 (format!("arr{n}"), format!("fn v_mk()->Sequence<int>{{ range({n}).map((v_i: int)->{{v_i*3}}).to_array() }}"), 8 * n),
                 (format!("bigint{n}"), format!("fn v_mk()->int{{ 2 ** ({n} * 8) }}"), if n > 16 { n } else { 0 }),
                 (format!("tuple_of_str{n}"), format!("fn v_mk()->(str, int){{ (\"y\" * {n}, 3) }}"), n),
-                (format!("utf8-str{n}"), format!("fn v_mk()->str{{ \"日本\" * {n} }}"), 6 * n),
-                (format!("utf8-str-4byte{n}"), format!("fn v_mk()->str{{ \"😀\" * {n} }}"), 4 * n),
+                // a non-ASCII string holds its bytes and one offset per character
+                (format!("utf8-str{n}"), format!("fn v_mk()->str{{ \"日本\" * {n} }}"), if n > 0 { 6 * n + 8 * 2 * n } else { 0 }),
+                (format!("utf8-str-4byte{n}"), format!("fn v_mk()->str{{ \"😀\" * {n} }}"), if n > 0 { 4 * n + 8 * n } else { 0 }),
                 (format!("stack{n}"), format!("fn v_mk()->Stack<int>{{ range({n}).reduce(cast<Stack<int>>(stack()), (v_s: Stack<int>, v_i: int)->{{v_s.push(v_i)}}) }}"), 8 * n),
             ];
             // collections built from elements that are already alive: what the collection itself adds
